@@ -888,17 +888,19 @@ func (db *DB) Close(ctx context.Context) (err error) {
 		db.Replica.Stop(true)
 	}
 
+	// Wait for in-flight snapshot streams, which read the database file
+	// handle, before tearing it down. They also rely on our read lock: once
+	// it is gone the application may checkpoint newer WAL frames into the
+	// database file underneath them, so it is released only afterwards.
+	db.chkMu.Lock()
+	defer db.chkMu.Unlock()
+
 	// Release the read lock to allow other applications to handle checkpointing.
 	if db.rtx != nil {
 		if e := db.releaseReadLock(); e != nil && err == nil {
 			err = e
 		}
 	}
-
-	// Wait for in-flight snapshot streams, which read the database file
-	// handle, before tearing it down.
-	db.chkMu.Lock()
-	defer db.chkMu.Unlock()
 
 	db.mu.Lock()
 	sqlDB := db.db
